@@ -1,9 +1,346 @@
 import BronVerif.Drive.Common
-/-! Driver handlers for C10. -/
-namespace BronVerif.Drive.C10
-open BronVerif BronVerif.Drive
+import BronVerif.Model.Session
+import BronVerif.Model.Curves
+import BronVerif.Model.Hash.Keccak
+import BronVerif.Model.Hash.Blake2b
+/-!
+Driver handlers for C10 (session setup, sub-contexts, pseudorandom zero shares, setup faults).
 
-def handle (op : String) (_args : List String) (_rhs : String) : Verdict :=
-  .unsupported ("C10 op " ++ op)
+Line formats (harness/c10.go, harness/c10_run.go); `<desc>` = five tokens
+`<ids> <r1b: id;ck;com,…> <r2b: id;msg;wit,…> <r2u: from;to;com,…> <r3u: from;to;msg;wit,…>`:
+
+* `setup <desc> => id;sid;extract;peer=seed&…|…`
+* `subctx <desc> <parent outputs> => q.q.q|id;sid;extract;peer=seed&…|…,…`  (also `outer>inner|…`)
+* `xsession <n> => <outputs of session 1>,<outputs of session 2>,…`
+* `przs <group> <ids> <sid> => q.q.q|id;share;peer=v&…|…,…`
+* `fault <desc> <kind;field;from;to;value,…> => <round>|id=outcome&…`
+
+Relations (agreement, symmetry, distinctness, zero sum, acceptance) are decided on every line, and
+sid / transcript extract / seed bytes (of contexts and sub-contexts) and every commitment opening are
+recomputed EXACTLY from the broadcast and unicast messages with the SHA3-512 / cSHAKE256 / BLAKE2b models.
+-/
+namespace BronVerif.Drive.C10
+open BronVerif BronVerif.Drive BronVerif.Session
+
+def toBA (b : Bytes) : ByteArray := ⟨b.toArray⟩
+def ofBA (b : ByteArray) : Bytes := b.data.toList
+
+/-- the executable hash models (validated byte-for-byte against Go by the C19 stream) -/
+def hashes : Hashes :=
+  { h512 := fun b => ofBA (Hash.sha3_512 (toBA b))
+    xof := fun s m n => ofBA (Hash.cshake256 ByteArray.empty (toBA s) (toBA m) n) }
+
+/-- hashcom: BLAKE2b-256 keyed with the commitment key over `message ‖ witness` -/
+def commitOracle : Bytes → Bytes → Bytes := fun k x => ofBA (Hash.blake2b (toBA k) (toBA x) 32)
+
+/-- label and length of the harness's transcript extraction (c10CtxOut) -/
+def extractLabel : Bytes := ascii "C10-extract"
+def seedBytes : Nat := 32
+
+/-! ### parsing -/
+
+def bytes? (s : String) : Option Bytes := (hexToBytes? s).map ofBA
+def hexOf (b : Bytes) : String := bytesToHex (toBA b)
+
+structure Desc where
+  ids : List Nat
+  r1 : List (Nat × Bytes × Bytes)
+  r2b : List (Nat × Bytes × Bytes)
+  r2u : List (Nat × Nat × Bytes)
+  r3u : List (Nat × Nat × Bytes × Bytes)
+
+def parseDesc? (a b c d e : String) : Option Desc := do
+  let ids ← parseNatList? a
+  let r1 ← (splitComma b).mapM fun t => match t.splitOn ";" with
+    | [i, x, y] => do some (← hexToNat? i, ← bytes? x, ← bytes? y)
+    | _ => none
+  let r2b ← (splitComma c).mapM fun t => match t.splitOn ";" with
+    | [i, x, y] => do some (← hexToNat? i, ← bytes? x, ← bytes? y)
+    | _ => none
+  let r2u ← (splitComma d).mapM fun t => match t.splitOn ";" with
+    | [i, j, x] => do some (← hexToNat? i, ← hexToNat? j, ← bytes? x)
+    | _ => none
+  let r3u ← (splitComma e).mapM fun t => match t.splitOn ";" with
+    | [i, j, x, y] => do some (← hexToNat? i, ← hexToNat? j, ← bytes? x, ← bytes? y)
+    | _ => none
+  some { ids, r1, r2b, r2u, r3u }
+
+/-- what one context exposes -/
+structure CtxOut where
+  id : Nat
+  sid : Bytes
+  ext : Bytes
+  seeds : List (Nat × Bytes)
+deriving DecidableEq
+
+def parseCtxOut? (s : String) : Option CtxOut :=
+  match s.splitOn ";" with
+  | [i, sid, ext, m] => do
+    let seeds ← (if m == "-" then some [] else (m.splitOn "&").mapM fun kv => match kv.splitOn "=" with
+      | [k, v] => do some (← hexToNat? k, ← bytes? v)
+      | _ => none)
+    some { id := ← hexToNat? i, sid := ← bytes? sid, ext := ← bytes? ext, seeds }
+  | _ => none
+
+def parseCtxOuts? (s : String) : Option (List CtxOut) := (s.splitOn "|").mapM parseCtxOut?
+
+def renderCtxOut (c : CtxOut) : String :=
+  natToHex c.id ++ ";" ++ hexOf c.sid ++ ";" ++ hexOf c.ext ++ ";" ++
+    (if c.seeds.isEmpty then "-" else "&".intercalate (c.seeds.map fun kv => natToHex kv.1 ++ "=" ++ hexOf kv.2))
+
+/-! ### relations on the outputs of the members of one (sub)quorum -/
+
+def allEq {α} [BEq α] : List α → Bool
+  | [] => true
+  | x :: xs => xs.all (· == x)
+
+def distinct {α} [BEq α] : List α → Bool
+  | [] => true
+  | x :: xs => !xs.contains x && distinct xs
+
+def seedOf (outs : List CtxOut) (i j : Nat) : Option Bytes := do
+  let c ← outs.find? (·.id == i)
+  c.seeds.lookup j
+
+/-- one seed per unordered pair (taken from the smaller ID's context) -/
+def pairSeeds (outs : List CtxOut) : List Bytes :=
+  outs.flatMap fun c => (c.seeds.filter (fun kv => c.id < kv.1)).map (·.2)
+
+/-- agreement inside one (sub)quorum `q` (sorted): members, equal sid/extract, symmetric seeds,
+pairwise different seeds.  `pre` prefixes the violation keys. -/
+def checkQuorum (pre : String) (q : List Nat) (outs : List CtxOut) : Option Verdict :=
+  if outs.map (·.id) != q then some (.bad (pre ++ "members") "the contexts are not those of the (sub)quorum members") else
+  if !outs.all (fun c => c.sid.length == 32 && c.ext.length == 32 && c.seeds.all (·.2.length == seedBytes)) then
+    some (.unsupported "output lengths") else
+  if !allEq (outs.map (·.sid)) then some (.bad (pre ++ "sid-agree") "parties hold different session ids") else
+  if !allEq (outs.map (·.ext)) then some (.bad (pre ++ "transcript-agree") "parties hold different transcript states") else
+  if !outs.all (fun c => c.seeds.map (·.1) == q.filter (· != c.id)) then
+    some (.bad (pre ++ "seed-peers") "a context's seeds are not keyed by exactly the other members") else
+  if !outs.all (fun c => c.seeds.all fun kv => seedOf outs kv.1 c.id == some kv.2) then
+    some (.bad (pre ++ "seed-symmetric") "seed(i,j) differs from seed(j,i)") else
+  if !distinct (pairSeeds outs) then some (.bad (pre ++ "seed-distinct") "two different pairs share a seed") else
+  none
+
+/-! ### exact recomputation (hash models) -/
+
+def viewOf (d : Desc) (i : Nat) : Contribution :=
+  let (ck, com) := (d.r1.lookup i).getD ([], [])
+  let (msg, wit) := (d.r2b.lookup i).getD ([], [])
+  { ck, com, msg, wit }
+
+def contribOf (d : Desc) (a b : Nat) : Bytes :=
+  match d.r3u.find? (fun e => e.1 == a && e.2.1 == b) with
+  | some e => e.2.2.1
+  | none => []
+
+def modelCtx (H : Hashes) (d : Desc) (i : Nat) : Ctx := honestContext H i d.ids (viewOf d) (contribOf d)
+
+def ctxOutOf (H : Hashes) (c : Ctx) : CtxOut :=
+  { id := c.holder, sid := c.sid, ext := tExtract H c.tlog extractLabel 32,
+    seeds := c.seeds.map fun kv => (kv.1, kv.2.read H seedBytes) }
+
+/-- one entry of a `subctx` line: `q.q.q|ctx|ctx…` or nested `outer>inner|ctx|…` -/
+structure SubEntry where
+  key : String
+  chain : List (List Nat)   -- successive sub-quorums
+  outs : List CtxOut
+
+def SubEntry.quorum (e : SubEntry) : List Nat := e.chain.getLast?.getD []
+
+def parseSubEntries? (s : String) : Option (List SubEntry) :=
+  (splitComma s).mapM fun en => match en.splitOn "|" with
+    | key :: parts => do
+      let chain ← (key.splitOn ">").mapM fun q => (q.splitOn ".").mapM hexToNat?
+      let outs ← parts.mapM parseCtxOut?
+      some { key, chain, outs }
+    | [] => none
+
+/-! ### groups for the zero shares -/
+
+structure GroupOps where
+  G : Type
+  add : G → G → G
+  neg : G → G
+  zero : G
+  parse : String → Option G
+  render : G → String
+  eq : G → G → Bool
+
+def groupOf? (name : String) : Option GroupOps :=
+  if name.startsWith "F" then
+    match hexToNat? (name.drop 1).toString with
+    | some p => if h : p = 0 then none else
+        haveI : NeZero p := ⟨h⟩
+        some { G := Fp p, add := (· + ·), neg := (- ·), zero := Fp.ofNat p 0,
+               parse := fun s => (hexToNat? s).map (Fp.ofNat p), render := Fp.toHex, eq := fun a b => a == b }
+    | none => none
+  else
+    (Curves.byName? name).map fun C =>
+      { G := Curves.Pt, add := Curves.add C, neg := Curves.neg C, zero := Curves.zero C,
+        parse := fun s => (Curves.parse? C s).bind fun P => if Curves.onCurve C P then some P else none,
+        render := Curves.render C, eq := fun a b => a == b }
+
+/-- one member's line in a `przs` entry: its share and the per-peer elements -/
+structure PShare (G : Type) where
+  id : Nat
+  share : G
+  vs : List (Nat × G)
+
+def parsePShare? (g : GroupOps) (p : String) : Option (PShare g.G) :=
+  match p.splitOn ";" with
+  | [i, sh, m] => do
+    let vs ← (m.splitOn "&").mapM fun (kv : String) => match kv.splitOn "=" with
+      | [k, v] => do some (← hexToNat? k, ← g.parse v)
+      | _ => none
+    some { id := ← hexToNat? i, share := ← g.parse sh, vs }
+  | _ => none
+
+def modelShare (g : GroupOps) (m : PShare g.G) : g.G := zeroShareWith g.add g.neg g.zero m.id m.vs
+
+def checkPrzsEntry (g : GroupOps) (entry : String) : Option Verdict :=
+  match entry.splitOn "|" with
+  | [] => some (.unsupported "przs entry")
+  | qs :: parts =>
+    match (qs.splitOn ".").mapM hexToNat?, parts.mapM (parsePShare? g) with
+    | some q, some ms =>
+      if ms.map (·.id) != q then some (.bad "przs-members" ("shares are not those of the members of " ++ qs)) else
+      if !ms.all (fun m => m.vs.map (·.1) == q.filter (· != m.id)) then some (.bad "przs-peers" qs) else
+      -- v(i,j) = v(j,i)
+      if !ms.all (fun m => m.vs.all fun kv => match ms.find? (·.id == kv.1) with
+          | some m' => match m'.vs.find? (·.1 == m.id) with
+            | some kv' => g.eq kv.2 kv'.2
+            | none => false
+          | none => false) then some (.bad "przs-pair-symmetric" ("v(i,j) != v(j,i) in " ++ qs)) else
+      -- Σ shares = identity
+      let total := ms.foldl (fun acc m => g.add acc m.share) g.zero
+      if !g.eq total g.zero then some (.bad "przs-sum-zero" ("shares of " ++ qs ++ " sum to " ++ g.render total)) else
+      -- share_i = Σ_j ±v(i,j)  (sign by ID order), as the implementation defines it
+      match ms.find? (fun m => !g.eq (modelShare g m) m.share) with
+      | some m => some (.diff ("share of " ++ natToHex m.id ++ " in " ++ qs ++ " = " ++ g.render (modelShare g m)))
+      | none =>
+        -- degenerate: every per-peer element is the identity (the shares would carry no randomness)
+        if ms.all (fun m => m.vs.all fun kv => g.eq kv.2 g.zero) then some (.diff ("all elements are the identity in " ++ qs))
+        else none
+    | _, _ => some (.unsupported ("przs entry " ++ qs))
+
+/-! ### faults -/
+
+structure Tamper where
+  kind : String
+  field : String
+  frm : Nat
+  to : Option Nat   -- none: every recipient
+  value : Bytes
+
+def parseTampers? (s : String) : Option (List Tamper) :=
+  (splitComma s).mapM fun t => match t.splitOn ";" with
+    | [k, f, a, b, v] => do
+      let to ← (if b == "*" then some none else (hexToNat? b).map some)
+      some { kind := k, field := f, frm := ← hexToNat? a, to, value := ← bytes? v }
+    | _ => none
+
+/-- the view of recipient `me`: the honest messages with the tampers addressed to `me` applied -/
+def viewFor (d : Desc) (ts : List Tamper) (me : Nat) : View :=
+  let hit (kind : String) (s : Nat) := ts.filter fun t => t.kind == kind && t.frm == s && (t.to == none || t.to == some me)
+  let dropped (kind : String) (s : Nat) := (hit kind s).any (·.field == "drop")
+  let upd (kind field : String) (s : Nat) (b : Bytes) : Bytes :=
+    (hit kind s).foldl (fun acc t => if t.field == field then t.value else acc) b
+  { r1 := fun s => if dropped "r1b" s then none else
+      (d.r1.lookup s).map fun (ck, com) => (upd "r1b" "ck" s ck, upd "r1b" "com" s com)
+    r2b := fun s => if dropped "r2b" s then none else
+      (d.r2b.lookup s).map fun (m, w) => (upd "r2b" "msg" s m, upd "r2b" "wit" s w)
+    r2u := fun s => if dropped "r2u" s then none else
+      (d.r2u.find? fun e => e.1 == s && e.2.1 == me).map fun e => upd "r2u" "com" s e.2.2
+    r3u := fun s => if dropped "r3u" s then none else
+      (d.r3u.find? fun e => e.1 == s && e.2.1 == me).map fun e => (upd "r3u" "msg" s e.2.2.1, upd "r3u" "wit" s e.2.2.2) }
+
+def renderRun (r : Nat × List (Nat × Outcome)) : String :=
+  toString r.1 ++ "|" ++ "&".intercalate (r.2.map fun o => natToHex o.1 ++ "=" ++ o.2.render)
+
+/-- does `me`'s view of sender `s` differ from what `s` sent? -/
+def cheatsOn (d : Desc) (ts : List Tamper) (me s : Nat) : Bool :=
+  let v := viewFor d ts me
+  let h := viewFor d [] me
+  v.r1 s != h.r1 s || v.r2b s != h.r2b s || v.r2u s != h.r2u s || v.r3u s != h.r3u s
+
+def handle (op : String) (args : List String) (rhs : String) : Verdict :=
+  match op, args with
+  | "setup", [a, b, c, d, e] =>
+    match parseDesc? a b c d e, parseCtxOuts? rhs with
+    | some desc, some outs =>
+      match checkQuorum "" (sortIds desc.ids) outs with
+      | some v => v
+      | none =>
+        let H := hashes
+        mirror ("|".intercalate ((sortIds desc.ids).map fun i => renderCtxOut (ctxOutOf H (modelCtx H desc i)))) rhs
+    | _, _ => .unsupported "setup args"
+  | "subctx", [a, b, c, d, e, parent] =>
+    match parseDesc? a b c d e, parseCtxOuts? parent with
+    | some desc, some pouts =>
+      match parseSubEntries? rhs with
+      | none => .unsupported "subctx entries"
+      | some es =>
+        let psid := (pouts.head?.map (·.sid)).getD []
+        -- per sub-quorum: agreement between its members
+        match es.findSome? (fun en =>
+            match checkQuorum "subctx-" en.quorum en.outs with
+            | some v => some v
+            | none => if en.outs.all (·.sid == psid) then none
+                      else some (.bad "subctx-sid" ("sub-context " ++ en.key ++ " does not carry the session id"))) with
+        | some v => v
+        | none =>
+          -- between sub-quorums (and the parent): different transcript states, different seeds
+          let exts := (pouts.head?.map (·.ext)).toList ++ es.filterMap fun en => en.outs.head?.map (·.ext)
+          let seeds := pairSeeds pouts ++ es.flatMap fun en => pairSeeds en.outs
+          if !distinct exts then .bad "subctx-separate" "two different sub-quorums (or parent) share a transcript state" else
+          if !distinct seeds then .bad "subctx-seed-separate" "two different sub-quorums (or parent) share a pairwise seed" else
+          let H := hashes
+          let model := es.map fun en =>
+            en.key ++ "|" ++ "|".intercalate (en.quorum.map fun i =>
+              renderCtxOut (ctxOutOf H (en.chain.foldl (subContext H) (modelCtx H desc i))))
+          mirror (joinComma model) rhs
+    | _, _ => .unsupported "subctx args"
+  | "xsession", [_] =>
+    match (splitComma rhs).mapM parseCtxOuts? with
+    | none => .unsupported "xsession rhs"
+    | some ss =>
+      if !distinct (ss.filterMap fun outs => outs.head?.map (·.sid)) then .bad "xsession-sid" "two sessions share a session id" else
+      if !distinct (ss.filterMap fun outs => outs.head?.map (·.ext)) then .bad "xsession-transcript" "two sessions share a transcript state" else
+      if !distinct (ss.flatMap pairSeeds) then .bad "xsession-seed" "a pairwise seed occurs in two sessions" else .ok
+  | "przs", [gname, _, _] =>
+    match groupOf? gname with
+    | none => .unsupported ("group " ++ gname)
+    | some g => ((splitComma rhs).findSome? (checkPrzsEntry g)).getD .ok
+  | "fault", [a, b, c, d, e, t] =>
+    match parseDesc? a b c d e, parseTampers? t with
+    | some desc, some ts =>
+      let C := commitOracle
+      let myck (i : Nat) : Bytes := ((desc.r1.lookup i).map (·.1)).getD []
+      let model := runSetup C desc.ids myck (viewFor desc ts)
+      let ms := renderRun model
+      if ms == rhs then .ok else
+      -- classify the difference against the property
+      match rhs.splitOn "|" with
+      | [_, os] =>
+        let go := (os.splitOn "&").filterMap fun kv => match kv.splitOn "=" with
+          | [k, v] => (hexToNat? k).map fun i => (i, v)
+          | _ => none
+        match go.findSome? (fun (i, o) =>
+            let m := ((model.2.lookup i).map Outcome.render).getD "?"
+            if o.startsWith "panic" then some (Verdict.bad "fault-panic" ("party " ++ natToHex i ++ ": " ++ o))
+            else if o == "ok" && m != "ok" then some (.bad "fault-accepted" ("party " ++ natToHex i ++ " accepted; expected " ++ ms))
+            else if o != "ok" && m == "ok" then some (.bad "fault-spurious-abort" ("party " ++ natToHex i ++ " reports " ++ o ++ "; expected " ++ ms))
+            else if o.startsWith "abort-blame:" then
+              match hexToNat? (o.drop 12).toString with
+              | some x => if cheatsOn desc ts i x then none
+                          else some (.bad "fault-blamed-honest" ("party " ++ natToHex i ++ " blames " ++ natToHex x ++ "; expected " ++ ms))
+              | none => some (.bad "fault-blame-set" ("party " ++ natToHex i ++ " reports " ++ o ++ "; expected " ++ ms))
+            else if o != "ok" then some (.bad "fault-unblamed" ("party " ++ natToHex i ++ " reports " ++ o ++ "; expected " ++ ms))
+            else none) with
+        | some v => v
+        | none => .diff ms
+      | _ => .unsupported "fault rhs"
+    | _, _ => .unsupported "fault args"
+  | _, _ => .unsupported ("C10 op " ++ op)
 
 end BronVerif.Drive.C10
